@@ -262,6 +262,7 @@ def c06(res):
     q = res.tier == "quick"
     for cfg in (("Render2D_quick.cfg", "Render2D_quick2.cfg") if q else ("Render2D_quick.cfg", "Render2D_quick2.cfg", "Render2D_thorough.cfg", "Render2D_thorough2.cfg")):
         res.models.append(model_check("MC_Render2D", cfg, wd, workers=8, timeout=3000))
+    res.models.append(prove("TileCoverProof", wd))
     bitmaps = os.path.join(wd, "bitmaps.out")
     res.gens.append(generate("MC_Render2D", "Render2DGen.cfg", wd, bitmaps, workers=4, timeout=1500))
     trace = os.path.join(wd, "trace.ndjson")
@@ -285,6 +286,7 @@ def c07(res):
     q = res.tier == "quick"
     for cfg in (("Render3D_quick.cfg", "Render3D_quick2.cfg") if q else ("Render3D_quick.cfg", "Render3D_quick2.cfg", "Render3D_thorough.cfg")):
         res.models.append(model_check("MC_Render3D", cfg, wd, workers=8, timeout=6000))
+    res.models.append(prove("TileCoverProof", wd))
     trace = os.path.join(wd, "trace.ndjson")
     if not run_recorder(res, "raster", ["c07", "-", res.tier, trace], wd, timeout=3000):
         return res.finish("recorder crashed")
